@@ -18,6 +18,20 @@ CLAIMED = {
     ),
 }
 
+CLAIMED["C03"] = dict(
+    category="model_checking",
+    text="Bounded. (1) The header index map: every operation (new/get/get_mut/set/delete/clear/iter/into_iter) is verified once from an ARBITRARY well-formed state "
+         "(all index bytes and entries symbolic; one harness per entry count) against an abstract view slot->Option<value> with a whole-view frame and the invariant "
+         "'no stale entry' -- an induction over operation histories of any length, instantiated at N=4, V=u8. (2) The response header block: all 39 histories of length <= 3 "
+         "over {insert, append, remove} on one standard and one custom key with a live background header, symbolic value contents: after every step size == 2 + sum(name+2+value+2) "
+         "over the view, the view is the latest value, and the real serializer writes exactly `size` bytes, all inside the reserved allocation (CBMC pointer checks on the raw "
+         "copy_nonoverlapping), with every live header exactly once. (3) complete() for 204, set_payload/set_text/drop_content state contracts.",
+    design_ref="DESIGN.md §4 C03",
+    note="Bounded in N (4 instead of 47), history length (3), value lengths (0..2). Response::send, Set-Cookie lines and the HEAD branch are not under a discharged contract. "
+         "Trusted: Kani/CBMC, ohkami_lib::map::TupleMap executed not specified. A genuine defect found by these obligations was repaired (fix: 7ef1524).",
+    technique="Kani harness contracts: representation invariant + abstract view per operation from an arbitrary state (inductive), enumerated histories with symbolic contents for the header block",
+)
+
 NOT_APPLICABLE = {
 }
 
